@@ -91,6 +91,8 @@ def t_set_pos(E, window, scroll_ok):
     E.prove(And(row >= top, row <= bot), 'cursor stays inside the scroll window')
     scrolls = [x for x in t._apage.log if x[0] == 'scroll_up']
     E.prove(len(scrolls) <= 1, 'at most one scroll')
+    E.prove(Implies(to_col != W, Not(t.overflow)) if isinstance(t.overflow, SBool) else (t.overflow is False or bool(to_col == W)),
+            'an overflow position left by earlier output survives only a move within the last column')
     if scrolls:
         E.cover('scrolled')
         E.prove(scroll_ok, 'no scrolling unless allowed')
@@ -286,6 +288,11 @@ def t_locate(E, window, bar):
         E.cover('moved')
         E.prove(ok, 'a cell off the screen, outside the window or on the key bar row is rejected')
         E.prove(And(t.current_row == rr, t.current_col == cc), 'the cursor is exactly at the requested cell')
+        E.prove(t.overflow is False or (isinstance(t.overflow, SBool) and bool(Not(t.overflow))),
+                'and not in the overflow position of earlier output: the next character is written at that cell')
+        cr, cp = E.call(t.csrlin_, iter([])), E.call(t.pos_, iter([]))
+        E.prove(not cr.raised and not cp.raised and bool(And(s16(cr.value) == rr, s16(cp.value) == cc)),
+                'CSRLIN and POS report the requested cell')
         E.prove([x for x in t._apage.log if x[0].startswith('scroll')] == [], 'LOCATE never scrolls')
 
 
